@@ -30,4 +30,21 @@ PROPS = {
     ],
     not_decided=['"Boxed variables compute like their raw arrays" (JAX numerics)'],
   ),
+  'C20': dict(
+    modules=['specs.jax_utils', 'specs.prefetch_iterator'],
+    bounded=[],
+    trusted_base=COMMON_TB,
+    assumptions=[
+      'threading.Condition is a monitor; Thread.start() is the publication point of the object',
+      'the conclusion "under every interleaving" for PrefetchIterator is the monitor rule: each critical section is verified from a havocked protected state satisfying the monitor invariant; composition over histories is a paper argument',
+      'itertools.islice(it, n) consumed by a for loop takes the next min(n, remaining) items; deque() is a list, popleft = pop(0)',
+      'jax.tree_util.tree_map(_prefetch, data) is an uninterpreted per-item function put(data)',
+      'np.delete / np.arange / transpose summaries as stated in specs/jax_utils.py',
+      'the source iterator is a ghost sequence with an optional failing position',
+    ],
+    not_decided=['pad_shard_unpad equals the wrapped function on the unpadded batch (numpy/jax reshapes)',
+                 'scan_in_dim equals the nested loop (lax.scan); only the transpose permutations are proved mutually inverse',
+                 'replicate/unreplicate/shard/stack_forest/onehot (one-line jnp wrappers)',
+                 'prefetch_to_device: propagation of a source exception (only exhaustion is modelled)'],
+  ),
 }
